@@ -61,6 +61,114 @@ def no_swallowed_backend_errors(ctx, rule, scope_pred=None, what='backend'):
     return n_reach
 
 
+def late_binding_closures(ctx, rule, funcs, what):
+    """A lambda / nested function created inside a loop that refers to the loop variable and outlives the iteration (it is
+    stored or handed on, not called on the spot) sees the variable's LAST value when it finally runs: every closure made
+    by the loop then acts on the last item (three listing columns all showing the last field)."""
+    n = 0
+    for f in funcs:
+        for lp in walk_local(f.node):
+            if not isinstance(lp, (ast.For, ast.AsyncFor)):
+                continue
+            tnames = {x.id for x in ast.walk(lp.target) if isinstance(x, ast.Name)}
+            for st in lp.body:
+                for c in ast.walk(st):
+                    if not isinstance(c, (ast.Lambda, ast.FunctionDef, ast.AsyncFunctionDef)):
+                        continue
+                    a = c.args
+                    bound = {x.arg for x in a.posonlyargs + a.args + a.kwonlyargs} | ({a.vararg.arg} if a.vararg else set()) | ({a.kwarg.arg} if a.kwarg else set())
+                    body = [c.body] if isinstance(c, ast.Lambda) else c.body
+                    free = {x.id for b in body for x in ast.walk(b) if isinstance(x, ast.Name) and isinstance(x.ctx, ast.Load)} - bound
+                    hit = free & tnames
+                    if not hit:
+                        continue
+                    n += 1
+                    par = getattr(c, '_parent', None)
+                    called_now = isinstance(par, ast.Call) and par.func is c
+                    # handed to something that consumes it within the iteration (sorted(key=..), map/filter consumed at once, max/min)
+                    consumed = isinstance(par, (ast.Call, ast.keyword)) and not called_now and any((dotted(getattr(p2, 'func', None)) or '') in ('sorted', 'max', 'min', 'any', 'all', 'sum', 'list', 'tuple', 'set') or (isinstance(getattr(p2, 'func', None), ast.Attribute) and p2.func.attr == 'sort') for p2 in [par if isinstance(par, ast.Call) else getattr(par, '_parent', None)] if p2 is not None)
+                    ctx.check(
+                        called_now or consumed,
+                        rule,
+                        f'{func_label(f)}|no-late-binding-closure:{",".join(sorted(hit))}',
+                        loc(f, c),
+                        f'{what}: the closure over `{", ".join(sorted(hit))}` is consumed within its iteration',
+                        f'{what}: a function created in the loop at line {lp.lineno} refers to the loop variable `{", ".join(sorted(hit))}` and is kept for later: when it runs, the variable holds the LAST item - '
+                        'every closure made by the loop behaves like the last one (e.g. all time columns show the same metadata field)',
+                    )
+    ctx.count('closures_over_loop_variables', n)
+    return n
+
+
+def no_swallowed_source_errors(ctx, rule):
+    """The stream producer of snapshot() either streams a collected file completely or fails the snapshot: a handler
+    around opening / reading a source file that does not re-raise leaves a registered file without content, digest
+    and metadata in the stored snapshot."""
+    from .common import stream_producers
+
+    corpus = ctx.corpus
+    snap = corpus.func('repository', 'Repository.snapshot')
+    n = 0
+    for p_ in stream_producers(snap):
+        ctx.analysed(p_)
+        for t in walk_local(p_.node):
+            if not isinstance(t, ast.Try):
+                continue
+            touches_source = any(isinstance(c.func, ast.Attribute) and c.func.attr in ('open', 'read', 'readinto', 'fileno', 'stat') or (dotted(c.func) or '') in ('open', 'os.stat', 'os.fstat') or (dotted(c.func) or '').endswith('read_metadata') for st in t.body for c in ast.walk(st) if isinstance(c, ast.Call))
+            if not touches_source:
+                continue
+            for h in t.handlers:
+                n += 1
+                ctx.check(
+                    handler_reraises(h),
+                    rule,
+                    f'{func_label(p_)}|source-errors-propagate',
+                    loc(p_, h),
+                    f'{p_.qual}: the handler around reading a source file re-raises',
+                    f'{p_.qual}: `except {", ".join(handler_catches(h)) or ""}` around opening / reading a source file does not re-raise: the file stays registered but is not streamed - the snapshot is '
+                    'written with a record that has no content, digest or metadata (an independent reader cannot reconstruct it, restore fails on it)',
+                )
+    ctx.count('handlers_around_source_reads', n)
+    return n
+
+
+DELETING_COMMANDS = {'delete_snapshots', 'clean', 'delete_objects'}
+
+
+def deletion_confined_to_gc_commands(ctx, rule):
+    """Objects are removed from the repository by the three commands whose purpose that is.  No other command of
+    Repository (snapshot, restore, the listings, init / unlock / add_key, upload / download-objects) reaches
+    backend.delete / backend.clean - not for "rolling back" a failed run either: what such a command believes to be
+    its own garbage may be a chunk an earlier snapshot (of any user) references."""
+    corpus = ctx.corpus
+    cls = repo_cls(corpus)
+
+    def pred(n):
+        return is_backend_ref(n, {'delete', 'clean'})
+
+    n = 0
+    for name, m in cls.methods.items():
+        if name.startswith('_') or name in DELETING_COMMANDS:
+            continue
+        if not (m.is_async or name in ('init', 'unlock')):
+            continue
+        n += 1
+        bad = reaches(corpus, m, pred, depth=6)
+        if bad:
+            ctx.analysed(m)
+        ctx.check(
+            not bad,
+            rule,
+            f'{func_label(m)}|command-does-not-delete',
+            loc(m, m.node),
+            f'{name}: cannot reach backend.delete / backend.clean',
+            f'{name} can reach backend.delete (directly or through a helper): a command that is not delete / clean / delete-objects removes objects - e.g. "cleaning up" after a failed snapshot '
+            'deletes chunks that already existed and are referenced by other snapshots',
+        )
+    ctx.floor(rule, 'non-deleting commands of Repository', n, 6)
+    return n
+
+
 def local_listing_errors_propagate(ctx, rule):
     """The file-system listing either reports every object under the prefix or raises.  A handler that absorbs an
     OSError may cover only the opening of the listing root (a missing area is an empty listing), never the walk below
